@@ -8,7 +8,8 @@ VARIABLE st
 
 O(op, c, wh, off, n) == [op |-> op, c |-> c, wh |-> wh, off |-> off, n |-> n]
 Ops == {O("open_create", <<>>, "", 0, 0), O("open_append", <<>>, "", 0, 0), O("open_read", <<>>, "", 0, 0),
-        O("flush", <<>>, "", 0, 0), O("close_w", <<>>, "", 0, 0), O("close_r", <<>>, "", 0, 0), O("remove", <<>>, "", 0, 0)}
+        O("flush", <<>>, "", 0, 0), O("close_w", <<>>, "", 0, 0), O("close_r", <<>>, "", 0, 0), O("remove", <<>>, "", 0, 0),
+        O("mkdir", <<>>, "", 0, 0), O("rmdir", <<>>, "", 0, 0), O("set_cr", <<>>, "", 0, 0), O("set_cr", <<>>, "", 0, 1)}
        \cup {O("write", c, "", 0, 0) : c \in WriteArgs}
        \cup {O(k, <<>>, wh, off, 0) : k \in {"seek_w", "seek_r"}, wh \in {"cur", "end"}, off \in Offs}
        \cup {O(k, <<>>, "start", off, 0) : k \in {"seek_w", "seek_r"}, off \in {x \in Offs : x >= 0}}    \* SeekFrom::Start is unsigned
